@@ -13,6 +13,7 @@ C09 - rendering keeps the text.  Claimed for ONE clause only: docstring fields a
   R09.11 the doctest colorizer re-emits every named group of a token regex it takes apart
   R09.12 the piece taken after a delimiter is the whole remainder (split(d, k)[k], never split(d)[k])
   R09.13 a width cut from the front of every line of a block is computed over all of its lines
+  R09.15 verbatim epytext tokens (literal and doctest blocks) are cut from their lines by one line-independent width
   R09.14 a consolidated-field handler turns every child of a list item into field content (whole copy, or indexes covered by a validated length)
 Does not decide: word-for-word preservation, ordering, literal/doctest blocks, napoleon conversion (equalities over runtime strings).
 """
@@ -521,6 +522,41 @@ def run(repo: Repo, chk: Check, thorough: bool = False) -> None:
     if n14 < 2:
         raise AnalysisError(f'R09.14: {n14} consolidated-field handlers found (2 confirmed: bullet list, definition list)')
     chk.require('R09.14', 2)
+
+    # ------------------------------------------------------------------ R09.15
+    # literal and doctest blocks are reproduced character for character: the tokenizer may remove the indentation of the block - the same number of
+    # columns from every line - and nothing else.  The contents of an LBLOCK / DTBLOCK token are therefore a join over `ln[w:]` with a width that
+    # does not depend on the line; `ln.lstrip()` / `ln.strip()` remove a line-dependent amount (the relative indentation of pprint output, tree dumps,
+    # right-aligned numbers)
+    VERBATIM = ('LBLOCK', 'DTBLOCK')
+    n15 = 0
+    for f in sorted((g for g in repo.funcs.values() if g.mod.name == EPY), key=lambda g: g.qn):
+        for c in calls_in(f):
+            if not (call_name(c) == 'Token' and c.args and isinstance(c.args[0], ast.Attribute) and c.args[0].attr in VERBATIM and len(c.args) >= 3):
+                continue
+            n15 += 1
+            cont = c.args[2]
+            srcs = values_of(f, cont.id) if isinstance(cont, ast.Name) else [cont]
+            gens = [g_ for v in srcs for g_ in ast.walk(v) if isinstance(g_, (ast.GeneratorExp, ast.ListComp)) and len(g_.generators) == 1 and
+                    isinstance(g_.generators[0].target, ast.Name)]
+            bad15 = None
+            if not gens:
+                bad15 = 'the contents are not assembled line by line any more (re-confirm by reading)'
+            for g_ in gens:
+                lv = g_.generators[0].target.id
+                e = g_.elt
+                uniform = isinstance(e, ast.Subscript) and isinstance(e.value, ast.Name) and e.value.id == lv and isinstance(e.slice, ast.Slice) and \
+                    e.slice.upper is None and (e.slice.lower is None or not any(isinstance(x, ast.Name) and x.id == lv for x in ast.walk(e.slice.lower)))
+                plain = isinstance(e, ast.Name) and e.id == lv
+                if not (uniform or plain):
+                    bad15 = f'`{norm(e)}` removes an amount that depends on the line'
+            chk.ob('R09.15', f'{f.qn} :: {c.args[0].attr} contents are the lines minus one common indentation', bad15 is None,
+                   'join over ln[w:] with a line-independent w' if bad15 is None else
+                   bad15 + ': output lines indented relative to the prompt (or the relative indentation inside a literal block) are flattened - the block is not '
+                   'reproduced character for character, and nothing is reported', repo.loc(f.mod, c))
+    if n15 < 2:
+        raise AnalysisError(f'R09.15: {n15} verbatim token constructions found in the epytext tokenizer (2 confirmed: _tokenize_doctest, _tokenize_literal)')
+    chk.require('R09.15', 2)
 
     # ------------------------------------------------------------------ R09.7
     # a reST directive that declares a body (has_content = True) consumes it whatever its arguments are: every normal path through
